@@ -191,11 +191,15 @@ def obligations(tier, seed):
     from harness import C11
 
     for t in range(3):
-        obs.append(Ob(name="converges_truth_%s" % KINDS[t], params=[("c", "int")], pre=["0 <= c < %d" % len(C11.TABLE)],
-                      body="H.converges(%d, c, {ACTIVE})" % t, witness=(C11.TABLE.index(((t + 1) % 3, 0, 1, 1, "agreeing", 0)),), kind="F",
-                      bounds="truth %s; the %d target-module configurations of C11 (surroundings x position x trailing newline x pre-state x "
-                      "function|method); three runs: the second and third must not change any byte (method targets: see KF-C09-method-created-toplevel)" % (KINDS[t], len(C11.TABLE)),
-                      timeout=280 if tier == "quick" else 1200, path_timeout=120, funcs=FUNCS))
+        for ch in range(2):
+            lo, hi = len(C11.TABLE) * ch // 2, len(C11.TABLE) * (ch + 1) // 2
+            wit = C11.TABLE.index(((t + 1) % 3, 0, 1, 1, "agreeing", 0))
+            obs.append(Ob(name="converges_truth_%s_%d" % (KINDS[t], ch), params=[("c", "int")], pre=["%d <= c < %d" % (lo, hi)],
+                          body="H.converges(%d, c, {ACTIVE})" % t, witness=(wit if lo <= wit < hi else lo,), kind="F",
+                          bounds="truth %s; target-module configurations %d..%d of C11's %d (surroundings x position x trailing newline x pre-state x "
+                          "function|method); three runs: the second and third must not change any byte (method targets: see "
+                          "KF-C09-method-created-toplevel)" % (KINDS[t], lo, hi - 1, len(C11.TABLE)),
+                          timeout=280 if tier == "quick" else 1200, path_timeout=120, funcs=FUNCS))
     obs.append(Ob(name="shared_truth_file", params=[("t", "int"), ("o", "int"), ("st", "int")], pre=["0 <= t <= 2 and 0 <= o <= 2", "0 <= st <= 2"],
                   body="H.shared_file(t, o, st, {ACTIVE})", witness=(1, 0, 1), kind="F",
                   bounds="one file passed under the truth's option and under another kind's option (3 x 2 kind pairs), holding only the truth / "
